@@ -730,10 +730,15 @@ class ConcRun(object):
             # record another in-flight request had just auto-created.
             # Classified so only if some serial order fails exactly those
             # requests (with 409) and lets every other success succeed.
+            root = set(i for i in succ
+                       for c, g in carried_consumer_gens(batch[i]).items()
+                       if g == 0 and c not in self.state0['cons'])
+            # ... and the requests that then built on it with the follow-on
+            # generations 1, 2, ... of that same never-existing consumer
             g0 = set(i for i in succ
                      for c, g in carried_consumer_gens(batch[i]).items()
-                     if g == 0 and c not in self.state0['cons'])
-            if g0:
+                     if g is not None and c not in self.state0['cons'])
+            if root:
                 for order, st, core in serial_seen:
                     bad = set(i for i, x in st.items() if x >= 400)
                     if bad and bad <= g0 and all(st[i] == 409 for i in bad):
